@@ -93,7 +93,7 @@ PROPS = {
         theorems=["Orbit.C06.view_update_order_tied_to_go_text", "Orbit.C06.index_tracks_replay", "Orbit.C06.index_step", "Orbit.C06.seen_is_listed_before",
                   "Orbit.C06.later_put_wins", "Orbit.C06.later_delete_wins", "Orbit.C06.own_write_listed_last",
                   "Orbit.C06.stale_key_survives", "Orbit.C06.concurrent_updates_never_leave_a_stale_view",
-                  "Orbit.C06.unlocked_copy_left_a_stale_view"],
+                  "Orbit.C06.unlocked_copy_left_a_stale_view", "Orbit.C06.view_is_the_replay_of_the_listing", "Orbit.C06.stale_key_survived_a_trim_before_the_fix"],
         families=[("kv", 120, 4000, 16), ("concurrent", 20, 500, 6), ("reload", 40, 1000, 12), ("limit", 40, 1000, 12)],
         corr_fields={"values", "idx", "ack", "time", "next"},
         nontrivial=nt_kv,
@@ -104,7 +104,7 @@ PROPS = {
     "C07": dict(
         module="OrbitModel.Properties.C07",
         theorems=["Orbit.C07.index_tracks_replay", "Orbit.C07.index_step", "Orbit.C07.pinned_tree_violates",
-                  "Orbit.C07.get_returns_exactly_matching"],
+                  "Orbit.C07.get_returns_exactly_matching", "Orbit.C07.documents_are_the_replay_of_the_listing", "Orbit.C07.trimmed_document_stayed_visible_before_the_fix"],
         families=[("doc", 120, 4000, 14), ("reload", 40, 1000, 12), ("limit", 40, 1000, 12)],
         corr_fields={"values", "idx", "ack", "docget"},
         nontrivial=nt_doc,
@@ -313,7 +313,7 @@ MANIFEST_TEXT = {
         note="Trusted: Lean kernel + standard axioms; the bus model (broadcast to every listener; which listeners filter on what) is hand-written from base_store.go and validated by the multidb family; runtime delivery timing of the libp2p eventbus is sampled, not proved.",
         technique="Lean 4 proof (listener filter case analysis over a broadcast model) with differential correspondence on multi-database instances"),
     "C10": dict(
-        text="Kernel-checked theorems: for every cancellation-free history mixing rejected and foreign heads with valid ones in any position and any fetch order, re-announcing heads and running the replicator to quiescence lists every accepted reachable entry and no rejected one; a mixed batch merges every acceptable single-entry log whatever else it contains; a head the access controller refuses is never handed to the replicator (so a non-writer cannot start a fetch that never ends — finding F18, repaired). Pinned-tree witnesses (batch aborted, valid entries never refetched) are decide-checked and were replayed on the real store before the fix: commit. The forge family checks on the real stores that after an honest re-announcement every acknowledged write is listed everywhere.",
+        text="Kernel-checked theorems: for every cancellation-free history mixing rejected and foreign heads with valid ones in any position and any fetch order, re-announcing heads and running the replicator to quiescence lists every accepted reachable entry and no rejected one; a mixed batch merges every acceptable single-entry log whatever else it contains; a head the access controller refuses is never handed to the replicator (so a non-writer cannot start a fetch that never ends — finding F18, repaired). Pinned-tree witnesses (batch aborted, valid entries never refetched) are decide-checked and were replayed on the real store before the fix: commit. The forge family checks on the real stores that after an honest re-announcement every acknowledged write is listed everywhere. A parent that is an entry-shaped block without a clock is a failed fetch, not a dead process (finding F44, fix: commit; `badparent=noclock` behind a colluding writer's entry in the forge family: the entry arrives, later honest writes replicate, the replica restarts).",
         note="Liveness is proved for the canonical fair scheduler (drain) with explicit fuel, safety (closure invariant, 'at rest means complete') for every schedule; the replicator model is hand-written and tied end-to-end (its bookkeeping counters are printed, not yet replayed step by step).",
         technique="Lean 4 proof (transition-system invariants + termination measure) with differential correspondence on adversarial announcements"),
     "C11": dict(
@@ -349,11 +349,11 @@ MANIFEST_TEXT = {
         note="Trusted: Lean kernel + standard axioms; the go/ast extractor (extract/main.go) that regenerates Generated/Gen.lean; which events fire and with which arguments is modelled by hand and validated by correspondence; 'Lamport times of a complete log never exceed its size' is proved from ClockTight (every entry is exactly one tick above one of the entries it names, which is how go-ipfs-log clocks an append; a permitted writer that forges clock times is outside it) and checked on every observation by the harness.",
         technique="Lean 4 proof over arithmetic regenerated from the Go source (translator) + differential correspondence with mid-flight sampling"),
     "C06": dict(
-        text="Kernel-checked theorems: for every history of a replica (any interleaving of local appends and merged batches) the index produced by the real UpdateIndex loop (newest-to-oldest scan with a handled set over a map that is never cleared) is equivalent to the last-writer-wins replay of the current listing; entries seen by a writer are listed before its update; the later update wins; under concurrent updates of the view (every number of updaters, every schedule) the view reflects the whole log once all have returned, because the log is copied under the index lock (finding F19, repaired: the copy used to be taken before the lock, witness decide-checked and replayed with a hook). Tied to the code by replaying every Put/Delete/Sync through the model and by checking All() = lwwReplay(Values()) on the implementation after every step on every replica.",
+        text="Kernel-checked theorems: for every history of a replica (any interleaving of local appends and merged batches) the index produced by the real UpdateIndex loop (newest-to-oldest scan with a handled set over a map that is never cleared) is equivalent to the last-writer-wins replay of the current listing; entries seen by a writer are listed before its update; the later update wins; under concurrent updates of the view (every number of updaters, every schedule) the view reflects the whole log once all have returned, because the log is copied under the index lock (finding F19, repaired: the copy used to be taken before the lock, witness decide-checked and replayed with a hook). Tied to the code by replaying every Put/Delete/Sync through the model and by checking All() = lwwReplay(Values()) on the implementation after every step on every replica. After the fix: commit F45 the view is rebuilt into a fresh map: it is the replay of what the log lists with NO history hypothesis (proved: the 'listing only grows' premise of the step theorems is what a trimming Load on a live store broke; decide-checked witness, replayed on the real store by Load(n) on live key-value stores in the limit family).",
         note="Trusted: Lean kernel + standard axioms; hand-written model of kvIndex.UpdateIndex and of the log, validated by correspondence (bounded by the generators); hypothesis KvOps (a key-value log carries only PUT/DEL) and the log universe assumptions.",
         technique="Lean 4 proof (handled-set scan = replay, invariant along histories) with differential correspondence against the real key-value store"),
     "C07": dict(
-        text="Kernel-checked theorems: the document index loop (after the fix: commit for PUTALL members) is equivalent to the replay of the listing at every step of every history, batch members included; Get returns exactly the matching index keys; the pinned loop is refuted by a decide-checked witness that was replayed on the real code before the fix. Correspondence and the L1 predicate index = docReplay(Values()) run on the implementation after every step; Get/Query results are compared with the matching documents of the index.",
+        text="Kernel-checked theorems: the document index loop (after the fix: commit for PUTALL members) is equivalent to the replay of the listing at every step of every history, batch members included; Get returns exactly the matching index keys; the pinned loop is refuted by a decide-checked witness that was replayed on the real code before the fix. Correspondence and the L1 predicate index = docReplay(Values()) run on the implementation after every step; Get/Query results are compared with the matching documents of the index. After the fix: commit F45 the documents are the replay of what the log lists with no history hypothesis (proved; a trimming Load on a live store left the documents of the trimmed entries visible: decide-checked witness, replayed in the limit family).",
         note="Trusted: Lean kernel + standard axioms; hand-written model of documentIndex.UpdateIndex/Get validated by correspondence; DocWF (members of one PUTALL have distinct keys: built from a Go map); ASCII lower-casing in the model; search keys with spaces excluded by the property.",
         technique="Lean 4 proof (generic handled-set scan = replay theorem instantiated for PUT/DEL/PUTALL) with differential correspondence against the real document store"),
     "C08": dict(
